@@ -41,6 +41,15 @@ Theorem C07_read :
     let s := run cfg init ops in
     nth h (slots s) None = Some (sd, o) ->
     fst (step cfg s (ORead h c)) =
+      if negb (cacheVals cfg) then
+        (* cacheValues = False: every read queries the own connection's view; a destroyed instance and a missing row assert *)
+        if i_obsolete (get_inst s sd o) then Raise EAssertion
+        else if dead s sd then Raise EAssertion
+             else match tbl_lookup (view s sd) (i_id (get_inst s sd o)) with
+                  | Some r => Ret (RVal (nth c r None))
+                  | None => Raise EAssertion
+                  end
+      else
       match nth c (i_vals (get_inst s sd o)) None with
       | Some v => Ret (RVal v)
       | None => if dead s sd then Raise EAssertion
@@ -262,8 +271,8 @@ Theorem C07_refused_update :
 Proof. exact (@refused_update_proof). Qed.
 
 (* ------------------------------------------------------------------ what is FALSE of the code (open findings) *)
-Definition cfgT : config := {| doCache := true; cullFreq := 100; cullFrac := 2; wrapOk := false; lazy := false; uniq := false |}.
-Definition cfgF : config := {| doCache := false; cullFreq := 100; cullFrac := 2; wrapOk := false; lazy := false; uniq := false |}.
+Definition cfgT : config := {| doCache := true; cullFreq := 100; cullFrac := 2; wrapOk := false; lazy := false; uniq := false; cacheVals := true |}.
+Definition cfgF : config := {| doCache := false; cullFreq := 100; cullFrac := 2; wrapOk := false; lazy := false; uniq := false; cacheVals := true |}.
 Definition v (z : Z) : val := Some z.
 
 (* cache=False: the transaction-side instance that made the change is dropped before commit; the parent's
@@ -392,7 +401,7 @@ Proof. vm_compute. repeat split. Qed.
 
 (* lazyUpdate: the parent holds an instance of row 1 with an assignment queued (a := 7) while the transaction deletes the
    row; the guards hold; commit expires the instance -- attributes and queue gone -- and a new get raises not-found *)
-Definition cfgL : config := {| doCache := true; cullFreq := 100; cullFrac := 2; wrapOk := false; lazy := true; uniq := false |}.
+Definition cfgL : config := {| doCache := true; cullFreq := 100; cullFrac := 2; wrapOk := false; lazy := true; uniq := false; cacheVals := true |}.
 Definition hist_lazy : list op :=
   [OCreate Par false (v 1) (v 1); OGet Txn false 1; OSet 0 0 (v 7); ODestroy 1].
 Example C07_lazy_parent_instance :
@@ -415,7 +424,7 @@ Example C07_lazy_sync_update :
 Proof. vm_compute. repeat split. Qed.
 (* UNIQUE column: the transaction creates row 2, a second create collides with row 1 (b = 1) and is refused, a third one goes
    through; the commit carries both the work before and the work after the refused statement *)
-Definition cfgU : config := {| doCache := true; cullFreq := 100; cullFrac := 2; wrapOk := false; lazy := false; uniq := true |}.
+Definition cfgU : config := {| doCache := true; cullFreq := 100; cullFrac := 2; wrapOk := false; lazy := false; uniq := true; cacheVals := true |}.
 Example C07_refused_in_the_middle :
   let ops := [OCreate Par false (v 1) (v 1); OCreate Txn false (v 2) (v 2)] in
   let s := run cfgU init ops in
@@ -429,6 +438,22 @@ Example C07_refused_in_the_middle :
   fst (step cfgU (snd (step cfgU (run cfgU init [OCreate Par false (v 1) (v 1)]) (OCreate Txn false (v 3) (v 1)))) (OCreate Par false (v 5) (v 5)))
     = Raise EOperational.
 Proof. vm_compute. repeat split; discriminate. Qed.
+
+(* cacheValues = False (here with lazyUpdate): reads query the database -- a queued value is not what a read returns --;
+   rollback still empties the queue and takes the instances out of the transaction's cache: a get of the row created in the
+   rolled-back transaction raises not-found, a syncUpdate afterwards sends nothing; after a commit that deleted the row the
+   parent's get raises not-found and a read through the old instance asserts *)
+Definition cfgN : config := {| doCache := true; cullFreq := 100; cullFrac := 2; wrapOk := false; lazy := true; uniq := false; cacheVals := false |}.
+Example C07_no_cached_values :
+  let s := run cfgN init [OCreate Par false (v 1) (v 1); OGet Txn false 1; OSet 1 0 (v 5); OCreate Txn false (v 2) (v 2)] in
+  let s1 := run cfgN s [ORollback; OBegin] in
+  let s2 := run cfgN s [OSyncUpdate 1; ODestroy 1; OCommit false] in
+  fst (step cfgN s (ORead 1 0)) = Ret (RVal (v 1)) /\ log (snd (step cfgN s (ORead 1 0))) = [SSelectCol Txn 1 0] /\
+  dirty (get_inst s Txn 0) = true /\ dirty (get_inst s1 Txn 0) = false /\
+  fst (step cfgN s1 (OGet Txn false 2)) = Raise ENotFound /\ log (snd (step cfgN s1 (OSyncUpdate 1))) = [] /\
+  t_rows (committed s2) = [(2, [v 2; v 2])] /\ fst (step cfgN s2 (OGet Par false 1)) = Raise ENotFound /\
+  fst (step cfgN s2 (ORead 0 0)) = Raise EAssertion /\ par_fresh s2 = true.
+Proof. vm_compute. repeat split. Qed.
 
 Print Assumptions C07_invisible_until_commit.
 Print Assumptions C07_lazy_assignment_queues.
